@@ -7,17 +7,19 @@
  *   Vgetid / VSgetid walk these tables, Vattach(f, ref, "r") hands out the key VL_KEY0 + p,
  *   Vntagrefs / Vgettagref read the member arrays, Vdetach releases.
  *
- * Two obligations per function (the loop table is switched by macros, see loops/vg_lone.loops):
- *   *_members (loop contracts on the member loop and on the 65535-entry scan; the two vgroup-table
- *             loops unwound): member count SYMBOLIC up to 65535.  For a ghost parent g_p and ghost
- *             member index g_k < g_nv[g_p]: that member is read exactly once (no index skipped),
- *             and if it is (tag of interest, ref x) then x is not reported lone; a ref that is no
- *             object of the file is never reported; nothing beyond asize entries is written.
- *   *_exact   (-DVL_EXACT: loop contract on the scan only, the other loops unwound, <= 3 members per
- *             vgroup): the return value is the number of lone objects and idarray holds the first
- *             min(asize, count) of them in ascending order -- compared with a reference model.
+ * Bounded stand-in (plain unwinding, no loop contracts): <= 3 vgroups, <= 3 members each, asize <= 4, and the ONE constant
+ * MAX_REF scaled down (see SCALING below) so that the scan over the work area can be unwound.  The result is compared with
+ * a reference model: the return value is the number of lone objects, idarray holds the first min(asize, count) of them in
+ * ascending order, nothing else of idarray changes, every vgroup is attached "r" once and detached again, every V call
+ * gets a valid key / index; plus the ghost-element facts (member g_k of vgroup g_p with ref g_x is not reported; a ref g_z
+ * that is no object of the file is not reported).
+ * What was tried and did not work (cbmc 6.11, probed): loop contracts on the member loop (member count symbolic up to
+ * 65535) and on the scan.  dfcc applies loop contracts only inside a function under contract, and with the two
+ * table-walking loops unwound next to them its write-set bookkeeping fails ("vgid is assignable", "assigns clause
+ * inclusion for loop Vlone.1", library unwinding assertion) for any unwind bound; the real work area of 65535 flags written
+ * at symbolic indices needs > 8 GB.
  */
-#define H4V_LOOPS_vg_lone
+#define VL_EXACT /* the only mode left: exact reference model */
 #include "h4v.h"
 #include "h4v_err.h"
 #include "hdf_priv.h"
@@ -33,13 +35,25 @@ H4V_DECL_ND(unsigned);
 #else /* Vlone */
 #define VL_TAG DFTAG_VG
 #endif
+/* SCALING (tool limit, probed): cbmc cannot cope with the real work area of MAX_REF = 65535 flags written at symbolic
+   indices (one vgroup, no members: > 8 GB; with --arrays-uf-always 46 M variables, one vgroup 236 s, two: > 900 s), and the
+   scan over it cannot be unwound.  The obligations therefore run on the real text of Vlone / VSlone with the ONE constant
+   MAX_REF re-defined to VL_SCALE (15): refs range over 1..VL_SCALE.  A bounded stand-in, labelled as such; everything else is
+   the code as it is. */
+#ifdef VL_SCALE
+#undef MAX_REF
+#define MAX_REF ((uint16)VL_SCALE)
+#endif
 #ifndef VL_REFMAX
-#define VL_REFMAX 65534 /* obligations *_maxref run with 65535 (the largest ref Hnewref hands out) */
+#define VL_REFMAX (MAX_REF - 1) /* obligations *_maxref run with MAX_REF (the largest ref Hnewref hands out) */
 #endif
 #define VL_FID  0x10000007
 #define VL_KEY0 0x40000021
 
 /* ------------------------------------------------------------------ ghost model */
+/* ref of member k of vgroup p.  The model's refs range over 0..VL_REFMAX (with the real MAX_REF: every 16-bit value but
+   65535, resp. every value in the *_maxref runs): larger array values stand for VL_REFMAX */
+#define VL_MREF(p, k) ((int32)g_mr[p][k] <= (int32)VL_REFMAX ? (int32)g_mr[p][k] : (int32)VL_REFMAX)
 int32   g_nvg, g_r[3];  /* vgroups of the file (parents) */
 int32   g_nv[3];        /* member counts */
 uint16 *g_mt[3], *g_mr[3];
@@ -49,9 +63,6 @@ int     g_att_n, g_det_n, g_bad_call;
 /* ghost elements */
 unsigned g_p, g_k;   /* a parent and a member index of it */
 int32    g_x;        /* the ref of that member */
-int      g_seen_n;   /* times Vgettagref was asked for member g_k of parent g_p */
-int32    g_y;        /* some ref; g_hit: a member (VL_TAG, g_y) was handed out */
-int      g_hit;
 int32    g_z;        /* some ref that is no object of the file */
 unsigned g_q;        /* a position in the caller's array, and its entry value */
 int32    g_id0;
@@ -124,22 +135,10 @@ Vgettagref(int32 vkey, int32 which, int32 *tag, int32 *ref)
     }
     int p = vkey - VL_KEY0;
     *tag  = (int32)g_mt[p][which];
-    *ref  = (int32)g_mr[p][which];
-    if ((unsigned)p == g_p && (unsigned)which == g_k)
-        g_seen_n++;
-    if (*tag == (int32)VL_TAG && *ref == g_y)
-        g_hit = 1;
+    *ref  = VL_MREF(p, which);
     return SUCCEED;
 }
 
-/* ------------------------------------------------------------------ loop-table switches */
-#ifdef VL_EXACT
-#define VL_FULL(...)     /* member loop unwound */
-#define VL_EXACT4(e) (e) /* the scan counts exactly */
-#else
-#define VL_FULL(...) __VA_ARGS__
-#define VL_EXACT4(e) 1
-#endif
 /* number of enumerated objects with ref < lim whose flag is set, and "x is a flagged object" */
 #define VL_CNT(fl, lim)                                                                                           \
     ((g_no > 0 && g_o[0] < (lim) && (fl)[g_o[0]] != 0) + (g_no > 1 && g_o[1] < (lim) && (fl)[g_o[1]] != 0) +      \
@@ -147,6 +146,21 @@ Vgettagref(int32 vkey, int32 which, int32 *tag, int32 *ref)
 #define VL_IS_OBJ(x) ((g_no > 0 && (x) == g_o[0]) || (g_no > 1 && (x) == g_o[1]) || (g_no > 2 && (x) == g_o[2]))
 
 #include "vg.c"
+
+/* ------------------------------------------------------------------ contracts: frame + result range (dfcc applies loop
+   contracts only inside a function that is itself under contract); the element-wise facts are H4V_CHECKs of the harness,
+   which knows the model */
+#define VL_FRAME g_att_n, g_det_n, g_bad_call, __CPROVER_object_whole(g_open)
+int32 Vlone(HFILEID f, int32 *idarray, int32 asize)
+    __CPROVER_requires(asize >= 0)
+    __CPROVER_assigns(VL_FRAME)
+    __CPROVER_assigns(idarray != NULL: __CPROVER_object_whole(idarray))
+    __CPROVER_ensures(__CPROVER_return_value == FAIL || (__CPROVER_return_value >= 0 && __CPROVER_return_value <= (int32)MAX_REF));
+int32 VSlone(HFILEID f, int32 *idarray, int32 asize)
+    __CPROVER_requires(asize >= 0)
+    __CPROVER_assigns(VL_FRAME)
+    __CPROVER_assigns(idarray != NULL: __CPROVER_object_whole(idarray))
+    __CPROVER_ensures(__CPROVER_return_value == FAIL || (__CPROVER_return_value >= 0 && __CPROVER_return_value <= (int32)MAX_REF));
 
 #ifdef H4V_NATIVE
 #include "h4v_native_wrap.h"
@@ -163,7 +177,7 @@ Vgettagref(int32 vkey, int32 which, int32 *tag, int32 *ref)
 #ifdef VL_EXACT
 #define VL_MAXM 3 /* members per vgroup in the exact runs */
 #else
-#define VL_MAXM 65535
+#define VL_MAXM 65535 /* members per vgroup: the full range of the 16-bit count */
 #endif
 #define VL_MCAP 3 /* named member values in counterexample mode */
 
@@ -222,21 +236,18 @@ vl_mk_model(void)
 #endif
     g_open[0] = g_open[1] = g_open[2] = 0;
     g_att_n = g_det_n = g_bad_call = 0;
-    g_seen_n = 0;
-    g_hit    = 0;
     /* ghost elements */
     H4V_HAVOC(unsigned, g_p);
     H4V_HAVOC(unsigned, g_k);
     H4V_HAVOC(int32, g_x);
-    H4V_HAVOC(int32, g_y);
     H4V_HAVOC(int32, g_z);
     H4V_HAVOC(unsigned, g_q);
     H4V_ASSUME(g_p < 3);
-    H4V_ASSUME(g_x >= 0 && g_x <= VL_REFMAX && g_y >= 0 && g_y <= VL_REFMAX && g_z >= 0 && g_z <= VL_REFMAX);
+    H4V_ASSUME(g_x >= 0 && g_x <= VL_REFMAX && g_z >= 0 && g_z <= VL_REFMAX);
     H4V_ASSUME(!VL_IS_OBJ(g_z));
     /* g_x is the ref of member g_k of parent g_p, when there is such a member */
     if ((int32)g_p < g_nvg && g_k < (unsigned)g_nv[g_p])
-        H4V_ASSUME(g_x == (int32)g_mr[g_p][g_k]);
+        H4V_ASSUME(g_x == VL_MREF(g_p, g_k));
 }
 
 #ifdef VL_VS
@@ -274,21 +285,17 @@ h_lone(void)
     H4V_CHECK(r != FAIL || r == FAIL, "returns");
     if (r != FAIL) { /* FAIL: allocation failure of the work area only */
         int32 nrep = r < asize ? r : asize; /* entries reported in the array */
-        H4V_CHECK(r >= 0 && r <= g_no, "at most the enumerated objects are lone");
+        H4V_CHECK(r >= 0 && r <= (int32)MAX_REF, "a count");
         H4V_CHECK(g_bad_call == 0, "every V call is made with a valid key / index");
         H4V_CHECK(g_att_n == 2 * 0 + g_nvg && g_det_n == g_nvg && g_open[0] == 0 && g_open[1] == 0 && g_open[2] == 0,
                   "every vgroup is attached once and detached again");
-        /* no member index is skipped, none is read twice */
-        H4V_CHECK(!is_member || g_seen_n == 1, "member g_k of vgroup g_p is read exactly once");
         /* a member (tag of interest, x) is never reported lone */
         H4V_CHECK(!(is_tagged && g_q < (unsigned)nrep) || idarray[g_q] != g_x, "an object that is a member of a vgroup is not reported lone");
         /* only objects of the file are reported */
         H4V_CHECK(!(g_q < (unsigned)nrep) || idarray[g_q] != g_z, "only enumerated objects are reported");
-        H4V_CHECK(!(g_q < (unsigned)nrep) || (idarray[g_q] >= 0 && idarray[g_q] <= 65535), "reported values are refs");
+        H4V_CHECK(!(g_q < (unsigned)nrep) || (idarray[g_q] >= 0 && idarray[g_q] <= (int32)MAX_REF), "reported values are refs");
         /* nothing beyond min(count, asize) entries is written (beyond asize: bounds checks on the exact-size array) */
         H4V_CHECK(!(g_q >= (unsigned)nrep && g_q < (unsigned)asize) || idarray[g_q] == g_id0, "entries beyond the reported ones keep their value");
-        /* an enumerated object that no vgroup names as a member is counted */
-        H4V_CHECK(!(VL_IS_OBJ(g_y) && !g_hit) || r >= 1, "an object no vgroup names is counted as lone");
 #ifdef VL_EXACT
         /* reference model: object j is lone iff no member (tag of interest, g_o[j]) exists in any vgroup */
         int lone[3], cnt = 0;
@@ -296,7 +303,7 @@ h_lone(void)
             lone[j] = j < g_no;
             for (int p = 0; p < 3; p++)
                 for (int k = 0; k < VL_MAXM; k++)
-                    if (p < g_nvg && k < g_nv[p] && g_mt[p][k] == VL_TAG && (int32)g_mr[p][k] == g_o[j])
+                    if (p < g_nvg && k < g_nv[p] && g_mt[p][k] == VL_TAG && VL_MREF(p, k) == g_o[j])
                         lone[j] = 0;
             cnt += lone[j];
         }
